@@ -145,11 +145,21 @@ def start(
         sys.argv[0], context_name, os.getpid(), config_file
     )
 
-    # Start QMI context.
-    _qmi_context.start()
+    try:
+        # Start QMI context.
+        _qmi_context.start()
 
-    # Connect to peer contexts.
-    _connect_to_peers()
+        # Connect to peer contexts.
+        _connect_to_peers()
+
+    except BaseException:
+        # Starting failed (for example because the TCP port is in use or a peer is unreachable).
+        # Do not keep the partially started context as global context: it could neither be
+        # stopped via qmi.stop() nor be replaced by a new call to qmi.start().
+        failed_context = _qmi_context
+        _qmi_context = None
+        failed_context._discard()
+        raise
 
 
 def create_config_from_file(config_file: str | None) -> CfgQmi:
